@@ -16,6 +16,7 @@ type c07PackIn struct {
 	Cfg    c07Cfg `json:"cfg"`
 	NTx    int    `json:"ntx"`
 	Rounds int    `json:"rounds"`
+	Many   int    `json:"many,omitempty"`   // that many tiny transactions of equal priority (pool order = submission order)
 	Cosign bool   `json:"cosign,omitempty"` // two-signer transactions, Conflicts against transactions paid by someone else, balances that bind
 }
 
@@ -50,6 +51,10 @@ func c07PackSetup(in c07PackIn) *c07Chain {
 	c := c07NewChain(in.Cfg)
 	if in.Cosign {
 		c07PackCosign(c, r, in)
+		return c
+	}
+	if in.Many > 0 {
+		c07PackMany(c, r, in)
 		return c
 	}
 	accts := []*c07Acct{c07MakeAcct(r, 0, 0), c07MakeAcct(r, 0, 0), c07MakeAcct(r, 0, 0), c07MakeAcct(r, 2, 3)}
@@ -207,6 +212,48 @@ func c07PackCosign(c *c07Chain, r *rng, in c07PackIn) {
 	}
 }
 
+// c07PackMany: more than 252 pooled transactions, so that the transaction count of the packed block needs a
+// three-byte var-uint. Two rich senders, minimal scripts, the exact network fee: all of equal priority.
+func c07PackMany(c *c07Chain, r *rng, in c07PackIn) {
+	accts := []*c07Acct{c07MakeAcct(r, 0, 0), c07MakeAcct(r, 0, 0)}
+	c.fund(5000_0000_0000, accts...)
+	fpb := c.bc.FeePerByte()
+	h := c.bc.BlockHeight()
+	for i := 0; i < in.Many; i++ {
+		tx, _ := c.build(c07TxSpec{signers: []*c07Acct{accts[i%2]}, script: c07PushOne, sysfee: 100_0000, vub: h + 2,
+			netfee: func(size int, calc int64) int64 { return int64(size)*fpb + calc }})
+		_ = c.bc.PoolTx(tx)
+	}
+	c.notePool()
+}
+
+// c07GenPackMany: the block size limit is put within +-2 bytes of the exact size of the block holding the first
+// 252, 253 or 254 pool transactions (a dry run with the same seed learns the sizes).
+func c07GenPackMany(r *rng) c07PackIn {
+	in := c07PackIn{Seed: r.next(), Rounds: 1, Many: 256 + r.intn(10)}
+	in.Cfg.MaxTx = uint16(300 + r.intn(100))
+	if r.chance(25) {
+		in.Cfg.MaxTx = uint16(253 + r.intn(2)) // the count cut itself sits at the boundary
+	}
+	in.Cfg.SRH = r.chance(50)
+	dry := in
+	dry.Cfg.noReplica = true
+	func() {
+		defer func() { recover() }()
+		c := c07PackSetup(dry)
+		defer c.close()
+		pool := c.bc.GetMemPool().GetVerifiedTransactions()
+		j := 252 + r.intn(3)
+		if j > len(pool) {
+			return
+		}
+		b := c.e.NewUnsignedBlock(c.t, pool[:j]...)
+		c.e.SignBlock(b)
+		in.Cfg.MaxSize = uint32(b.GetExpectedBlockSize() - 2 + r.intn(5))
+	}()
+	return in
+}
+
 // c07TightSize picks a block size limit within +-40 bytes of an exact fit of some prefix of the pool.
 func c07TightSize(r *rng, in c07PackIn) (size uint32) {
 	defer func() {
@@ -313,6 +360,9 @@ func c07RunPack(co *caseOut, in c07PackIn) {
 		tag := cut
 		if in.Cosign {
 			tag += "/cosign"
+		}
+		if in.Many > 0 {
+			tag += fmt.Sprintf("/many%d", len(sel))
 		}
 		if in.Cfg.SRH {
 			tag += "/srh"
